@@ -178,8 +178,10 @@ def isa_names(e):
 def base_name(e):
     n = type(e).__name__
     if n.startswith('GlomError.wrap(') and n.endswith(')'):
-        return n[len('GlomError.wrap('):-1], True
-    return n, False
+        # the class the wrapper derives from, by object: two classes may share a __name__
+        b = type(e).__bases__[0]
+        return (exccat.name_of(b) if b.__name__ == n[len('GlomError.wrap('):-1] else n[len('GlomError.wrap('):-1]), True
+    return exccat.name_of(type(e)), False
 
 
 def public_attrs(e):
@@ -211,7 +213,7 @@ def run_impl(case):
         name, wrapped = base_name(ex)
         origin = getattr(ex, '_GlomError__wrapped', None)
         if any(ex is p for p in exccat.RAISED):
-            return {'seen': 'same', 'cls': type(ex).__name__}
+            return {'seen': 'same', 'cls': exccat.name_of(type(ex))}
         if origin is not None and any(origin is p for p in exccat.RAISED):
             return {'seen': 'new', 'wrapped': wrapped, 'cls': name, 'args_same': ex.args == origin.args,
                     'attrs_kept': all(getattr(ex, k, None) == v and hasattr(ex, k) for k, v in public_attrs(origin).items()),
